@@ -424,8 +424,13 @@ private:
         case 15: { WellM* p = anyProducer(); if (!p) return; s << "WTMULT\n " << q(p->name) << " '" << (rng.chance(0.5) ? "ORAT" : "LRAT") << "' " << fmtd(0.5 * (1 + rng.below(4))) << " /\n/\n"; add(st, "WTMULT", s.str()); return; }
         case 16: { s << "TUNING\n " << fmtd(1 + rng.below(3)) << " " << fmtd(10 + rng.below(30)) << " /\n /\n " << (rng.chance(0.5) ? "12 1 50" : "") << " /\n"; add(st, "TUNING", s.str()); return; }
         case 17: { s << "NEXTSTEP\n " << fmtd(1 + rng.below(5)) << " " << (rng.chance(0.5) ? "'YES'" : "'NO'") << " /\n"; add(st, "NEXTSTEP", s.str()); return; }
-        case 18: { s << "RPTRST\n BASIC=" << 1 + rng.below(3) << (rng.chance(0.5) ? " FREQ=2" : "") << " /\n"; add(st, "RPTRST", s.str()); return; }
-        case 19: { s << "RPTSCHED\n " << (rng.chance(0.5) ? "FIP WELLS" : "RESTART=2 FIP=1") << " /\n"; add(st, "RPTSCHED", s.str()); return; }
+        case 18: { // mnemonic form, or the old form with integer controls (item n = control n)
+            if (rng.chance(0.7)) s << "RPTRST\n BASIC=" << 1 + rng.below(3) << (rng.chance(0.5) ? " FREQ=2" : "") << " /\n";
+            else s << "RPTRST\n " << 1 + rng.below(3) << " " << 2 + rng.below(6) << "*0 " << rng.below(2) << " " << rng.below(2) << " /\n";
+            add(st, "RPTRST", s.str()); return; }
+        case 19: { if (rng.chance(0.7)) s << "RPTSCHED\n " << (rng.chance(0.5) ? "FIP WELLS" : "RESTART=2 FIP=1") << " /\n";
+                   else s << "RPTSCHED\n " << rng.below(2) << " " << rng.below(2) << " " << 1 + rng.below(5) << "*0 " << rng.below(3) << " /\n";
+                   add(st, "RPTSCHED", s.str()); return; }
         case 20: { if (!opt.udq) return; std::string n = std::string(rng.chance(0.5) ? "WU" : "FU") + "A" + std::to_string(1 + rng.below(3)); M->udqAssigned.push_back(n); s << "UDQ\n ASSIGN " << n << " " << fmtd(rng.below(100)) << " /\n" << (rng.chance(0.3) ? " UNITS " + n + " SM3/DAY /\n" : "") << "/\n"; add(st, "UDQ", s.str()); return; }
         case 21: { if (!opt.udq) return; bool well = rng.chance(0.5); std::string n = std::string(well ? "WU" : "FU") + "D" + std::to_string(1 + rng.below(3)); M->udqDefined.push_back(n); static const char* we[] = {"WOPR * 2", "WWPR + WOPR", "WOPR / ( WWPR + 1 )", "MAX( WOPR , 10 )", "-WOPR", "-( WOPR - WWPR ) * 2", "WOPR - -WWPR", "10 - ABS( -WWPR )"}; static const char* fe[] = {"FOPR * 2", "SUM( WOPR )", "FOPR + FWPR", "MAX( WOPR )", "-FOPR", "-( FOPR - FWPR ) * 2", "3 - -FOPR", "-SUM( WOPR )"}; s << "UDQ\n DEFINE " << n << " " << (well ? we[rng.below(8)] : fe[rng.below(8)]) << " /\n" << (rng.chance(0.3) ? " UPDATE " + n + (rng.chance(0.5) ? " NEXT /\n" : " OFF /\n") : "") << "/\n"; add(st, "UDQ", s.str()); return; }
         case 22: { if (!opt.actions || !w) return; ActionM a; a.name = "ACT" + std::to_string(++actionCounter); a.maxRun = (int)rng.below(4); a.minWait = rng.chance(0.5) ? 0 : (double)rng.below(20); a.definedAtStep = curStep;
